@@ -221,6 +221,7 @@ func cmdBuild(args []string) {
 	coqOut := fs.String("coq", "", "Coq output (vm_compute route)")
 	coqN := fs.Int("coqn", 10, "number of cases in the Coq output")
 	obsOut := fs.String("obs", "obs.jsonl", "observation output")
+	bmaskT := fs.String("bmask", "bmask_all", "field groups compared by the vm_compute sample (Coq term)")
 	fs.Parse(args)
 	g := NewGen(*seed)
 	applyProfile(g, *profile)
@@ -268,7 +269,7 @@ func cmdBuild(args []string) {
 			}
 			names += fmt.Sprintf("c_%d", i)
 		}
-		fmt.Fprintf(w, "Definition M := Eval vm_compute in bmismatches [%s].\nPrint M.\n", names)
+		fmt.Fprintf(w, "Definition M := Eval vm_compute in bmismatches %s [%s].\nPrint M.\n", *bmaskT, names)
 		w.Flush()
 		f.Close()
 	}
